@@ -358,7 +358,18 @@ def check_stepwise(ctx: Ctx, mode: dict) -> list[dict]:
             if res.status in ("capped", "timeout"):
                 break
             if res.status != "ok" or any(c == "RuntimeError" for c, _ in res.messages):
-                out.append({"kind": "step-unsafe-output", "step": stage["name"], "iter": stage["iter"], "instance": inst, "error": res.error[:200]})
+                cb, ca = Counter(prev_stage["stmts"]), Counter(stage["stmts"])
+                out.append(
+                    {
+                        "kind": "step-unsafe-output",
+                        "step": stage["name"],
+                        "iter": stage["iter"],
+                        "instance": inst,
+                        "error": res.error[:200],
+                        "removed": list((cb - ca).elements())[:8],
+                        "added": list((ca - cb).elements())[:12],
+                    }
+                )
                 break
             if prev_res.ok:
                 d = compare(ctx, mode, prev_res, res)
@@ -376,6 +387,7 @@ def check_stepwise(ctx: Ctx, mode: dict) -> list[dict]:
                             "diff": d,
                             "removed": list((cb - ca).elements())[:8],
                             "added": list((ca - cb).elements())[:12],
+                            "result_undefined": bool(res.undefined),
                         }
                     )
             prev_stage, prev_res = stage, res
